@@ -37,19 +37,29 @@ func bigs(ss []string) []big.Int {
 }
 
 func helperHash(pc *packCase) (*big.Int, *big.Int) {
+	// the reference is computed from a pristine copy BEFORE the helper runs: the helper must not be able to influence it
 	if pc.C.Mode == "insertion" {
 		s, _ := strconv.ParseUint(pc.C.Start, 10, 32)
-		p := &prover.InsertionParameters{StartIndex: uint32(s), PreRoot: *bigOf(pc.C.Pre), PostRoot: *bigOf(pc.C.Post), IdComms: bigs(pc.C.Ids)}
+		mk := func() *prover.InsertionParameters {
+			return &prover.InsertionParameters{StartIndex: uint32(s), PreRoot: *bigOf(pc.C.Pre), PostRoot: *bigOf(pc.C.Post), IdComms: bigs(pc.C.Ids)}
+		}
+		ref := refInputHashInsertion(mk())
+		p := mk()
 		p.ComputeInputHashInsertion()
-		return new(big.Int).Set(&p.InputHash), refInputHashInsertion(p)
+		return new(big.Int).Set(&p.InputHash), ref
 	}
-	p := &prover.DeletionParameters{PreRoot: *bigOf(pc.C.Pre), PostRoot: *bigOf(pc.C.Post)}
-	for _, s := range pc.C.Idxs {
-		v, _ := strconv.ParseUint(s, 10, 32)
-		p.DeletionIndices = append(p.DeletionIndices, uint32(v))
+	mk := func() *prover.DeletionParameters {
+		p := &prover.DeletionParameters{PreRoot: *bigOf(pc.C.Pre), PostRoot: *bigOf(pc.C.Post)}
+		for _, s := range pc.C.Idxs {
+			v, _ := strconv.ParseUint(s, 10, 32)
+			p.DeletionIndices = append(p.DeletionIndices, uint32(v))
+		}
+		return p
 	}
+	ref := refInputHashDeletion(mk())
+	p := mk()
 	p.ComputeInputHashDeletion()
-	return new(big.Int).Set(&p.InputHash), refInputHashDeletion(p)
+	return new(big.Int).Set(&p.InputHash), ref
 }
 
 // ---- leg B: code -> spec.  The code produces documents; TLC recomputes their hashes afterwards.
